@@ -49,6 +49,7 @@ theorem conc_defmod (s : SStmt) (n0 : Node) (h : conc s = some (.node n0)) (hk :
   | option a b c => simp [conc] at h
   | description a b => simp [conc] at h
   | unitdef a b c => simp [conc] at h
+  | unitimp a b => simp [conc] at h
   | caseCond a => simp [conc] at h
   | caseElse => simp [conc] at h
   | caseEnd => simp [conc] at h
@@ -83,13 +84,15 @@ theorem conc_is_node (s : SStmt) (it : Item) (h : conc s = some it) : ∃ n0, it
   | option a b c => simp [conc] at h
   | description a b => simp [conc] at h
   | unitdef a b c => simp [conc] at h
+  | unitimp a b => simp [conc] at h
   | caseCond a => simp [conc] at h
   | caseElse => simp [conc] at h
   | caseEnd => simp [conc] at h
 
 theorem absEnv_of_EqIL (env' env'' : Env) (h1 : EqIL env''.nodes env'.nodes)
-    (h2 : env''.sources = env'.sources) (h3 : env''.units = env'.units) : absEnv env'' = absEnv env' := by
-  simp only [absEnv, EqIL_abs h1, h2, h3]
+    (h2 : env''.sources = env'.sources) (h3 : env''.units = env'.units)
+    (h4 : env''.srcUnits = env'.srcUnits) : absEnv env'' = absEnv env' := by
+  simp only [absEnv, EqIL_abs h1, h2, h3, h4]
 
 /-- one line of a nested program -/
 theorem refine_step_at (tbl : UnitTable) (env : Env) (hinv : Inv tbl env) (i : Nat) (nm : Str)
@@ -108,10 +111,10 @@ theorem refine_step_at (tbl : UnitTable) (env : Env) (hinv : Inv tbl env) (i : N
       simp only at hi0
       subst hi0
       rfl
-    obtain ⟨env'', hs, h1, h2, h3⟩ := step_at tbl env { n0 with name := nm, indent := i } n0.name hk hreg env0
+    obtain ⟨env'', hs, h1, h2, h3, h4⟩ := step_at tbl env { n0 with name := nm, indent := i } n0.name hk hreg env0
       (by rw [hback]; exact hstep)
     refine ⟨env'', by simp [itemAt, hk, hs], ?_, ?_⟩
-    · rw [absEnv_of_EqIL env0 env'' h1 h2 h3]; exact habs
+    · rw [absEnv_of_EqIL env0 env'' h1 h2 h3 h4]; exact habs
     · exact ⟨EqIL_good h1 hinv0.1, by rw [h2]; exact hinv0.2⟩
 
 /-! ### injections that the specification rejects -/
